@@ -19,3 +19,12 @@ def twinMapOf : Twin K V :=
 def FUEL : Nat := 60
 
 end Deep
+
+namespace Deep
+variable {K V : Type} [DecidableEq K] [Inhabited V]
+
+/-- the same two instances, recording the trace of atomic actions of a call (`W.ev`) -/
+def twinMapTr : Twin K V := { (twinMap : Twin K V) with trace := true }
+def twinMapOfTr : Twin K V := { (twinMapOf : Twin K V) with trace := true }
+
+end Deep
